@@ -279,6 +279,69 @@ pub fn compact_alias(prop: u8, tier: &str) -> (u64, Vec<Viol>) {
     (n, v)
 }
 
+/// Overlapping mixed-resolution sets whose NUMBER of distinct cells coincides with the size of a whole
+/// resolution (or of a whole sibling group): all cells of resolution r except k of them, plus k cells of
+/// other resolutions placed elsewhere or on top. A shortcut that decides by counting takes them for the
+/// complete level.
+pub fn cardinality_sets(tier: &str) -> Vec<Vec<u64>> {
+    let mut out = Vec::new();
+    let base = rc::all_cells(0);
+    let rmax = if tier == "quick" { 2 } else { 3 };
+    for r in 0..=rmax {
+        let all = rc::all_cells(r);
+        let n = all.len();
+        let omit: Vec<usize> = if n <= 60 { (0..n).collect() } else { (0..n).step_by(if tier == "quick" { 17 } else { 5 }).collect() };
+        // replacement cells: coarser cells (any position), finer cells, the world cell
+        let mut repl: Vec<u64> = vec![0];
+        if r >= 1 {
+            repl.extend(base.iter().copied().step_by(3));
+        }
+        if r >= 2 {
+            repl.extend(rc::all_cells(1).into_iter().step_by(7));
+        }
+        repl.extend(rc::all_cells(r + 1).into_iter().step_by(if r == 0 { 7 } else { 53 }).take(12));
+        for &o in &omit {
+            for &x in &repl {
+                let mut v: Vec<u64> = all.iter().copied().enumerate().filter(|(i, _)| *i != o).map(|(_, c)| c).collect();
+                v.push(x);
+                out.push(v);
+            }
+        }
+        // two omitted, two added
+        if n >= 12 {
+            let mut v: Vec<u64> = all.iter().copied().skip(2).collect();
+            v.push(repl[0]);
+            v.push(*repl.last().unwrap());
+            out.push(v);
+        }
+    }
+    // a sibling group with one member replaced by a cell elsewhere (count = group size)
+    let q = rc::children(base[3]);
+    for g in [rc::children(q[1]), rc::children(rc::children(q[2])[0])] {
+        for i in 0..g.len() {
+            for x in [q[4], base[9], rc::children(g[(i + 1) % g.len()])[0]] {
+                let mut v = g.clone();
+                v[i] = x;
+                out.push(v);
+            }
+        }
+    }
+    out
+}
+
+pub fn compact_cardinality(tier: &str) -> (u64, Vec<Viol>) {
+    let sets = cardinality_sets(tier);
+    let n = sets.len() as u64;
+    let v: Vec<Viol> = sets
+        .par_iter()
+        .flat_map(|s| {
+            let v = oracle_c08(s, false);
+            v.into_iter().take(1).collect::<Vec<_>>()
+        })
+        .collect();
+    (n, v.into_iter().take(8).collect())
+}
+
 // ------------------------------------------------------------------------------------ uncompact
 
 fn check_blocks(l: &[u64], t: i32) -> Vec<Viol> {
@@ -803,6 +866,98 @@ pub fn collision_circuits(tier: &str, class: &str) -> (u64, Vec<Viol>) {
     (n, out)
 }
 
+/// A call repeated after exactly g - 1 identical filler calls on one fresh thread, g around 2^8, 2^10,
+/// 2^12 and 2^16 (call counters that wrap, slots that look fresh again), for several (call, filler)
+/// pairs; every result is compared with the reference hierarchy.
+pub fn call_ladders(class: &str, which: &[&str]) -> (u64, Vec<Viol>) {
+    let base = rc::all_cells(0);
+    let q = rc::children(base[9])[2];
+    let a = under(q, &[1, 2, 0, 3, 1]);
+    let b = under(rc::children(base[1])[4], &[0, 0, 2]);
+    let mut pairs: Vec<(Call, Call)> = Vec::new();
+    for w in which {
+        match *w {
+            "compact" => {
+                let mut x = rc::children(a);
+                x.push(under(q, &[3]));
+                x.push(under(q, &[2, 2, 1]));
+                pairs.push((Call::Compact(x), Call::Compact(vec![b])));
+                pairs.push((Call::Compact(rc::all_cells(1)), Call::Compact(rc::children(b))));
+            }
+            "uncompact" => {
+                pairs.push((Call::Uncompact(vec![a, q, a], 8), Call::Uncompact(vec![b], 5)));
+            }
+            "children" => {
+                pairs.push((Call::Children(a, Some(9)), Call::Children(b, None)));
+                pairs.push((Call::Children(0, Some(1)), Call::Children(base[3], None)));
+            }
+            "parent" => {
+                pairs.push((Call::Parent(under(a, &[1, 1, 1, 2, 3, 0, 1, 2, 2, 2, 1, 0, 3]), Some(2)), Call::Parent(b, None)));
+            }
+            _ => {}
+        }
+    }
+    let res: Vec<(u64, Vec<Viol>)> = pairs
+        .par_iter()
+        .map(|(x, f)| {
+            let (x, f, class) = (x.clone(), f.clone(), class.to_string());
+            std::thread::scope(|sc| {
+                sc.spawn(move || {
+                    let norm = |c: &Call, mut v: Vec<u64>| {
+                        if !matches!(c, Call::Uncompact(..)) {
+                            v.sort_unstable();
+                            v
+                        } else {
+                            canonical_blocks(c, v)
+                        }
+                    };
+                    let want_x = norm(&x, x.expect());
+                    let want_f = norm(&f, f.expect());
+                    let mut n = 0u64;
+                    let check = |c: &Call, want: &Vec<u64>, gap: u64, n: u64| -> Option<Viol> {
+                        let got = norm(c, c.run().unwrap_or_default());
+                        if &got != want {
+                            Some(viol(&class, format!("{:?} returned {} ids that differ from the hierarchy ({} expected) when called after exactly {} identical calls of {:?} (call #{} of the thread)", c, got.len(), want.len(), gap.saturating_sub(1), f, n), json!({"kind": "call-ladder", "call": c.to_json(), "filler": f.to_json(), "gap": gap, "class": class})))
+                        } else {
+                            None
+                        }
+                    };
+                    if let Some(v) = check(&x, &want_x, 0, 0) {
+                        return (1, vec![v]);
+                    }
+                    n += 1;
+                    for g in [255u64, 256, 257, 1023, 1024, 1025, 4096, 65535, 65536, 65537] {
+                        for k in 1..g {
+                            n += 1;
+                            if k % 8191 == 1 {
+                                if let Some(v) = check(&f, &want_f, g, n) {
+                                    return (n, vec![v]);
+                                }
+                            } else {
+                                let _ = f.run();
+                            }
+                        }
+                        n += 1;
+                        if let Some(v) = check(&x, &want_x, g, n) {
+                            return (n, vec![v]);
+                        }
+                    }
+                    (n, vec![])
+                })
+                .join()
+                .unwrap()
+            })
+        })
+        .collect();
+    let mut n = 0;
+    let mut out = Vec::new();
+    for (c, v) in res {
+        n += c;
+        out.extend(v);
+    }
+    (n, out)
+}
+
 /// replay of the cases this module records
 pub fn replay(case: &serde_json::Value) -> Option<Vec<Viol>> {
     let cells = || case["cells"].as_array().map(|a| a.iter().filter_map(|x| x.as_str().and_then(|s| u64::from_str_radix(s, 16).ok())).collect::<Vec<u64>>());
@@ -812,6 +967,39 @@ pub fn replay(case: &serde_json::Value) -> Option<Vec<Viol>> {
             let v = Call::from_json(&case["call"])?;
             // fresh thread: the recorded pair is the whole history
             Some(std::thread::scope(|sc| sc.spawn(move || refusal_then(&e, &v).into_iter().collect::<Vec<_>>()).join().unwrap()))
+        }
+        "call-ladder" => {
+            let x = Call::from_json(&case["call"])?;
+            let f = Call::from_json(&case["filler"])?;
+            let gap = case["gap"].as_u64().unwrap_or(0);
+            let class = case["class"].as_str().unwrap_or("C07/after-call").to_string();
+            let case2 = case.clone();
+            Some(std::thread::scope(|sc| {
+                sc.spawn(move || {
+                    // the ladder up to the recorded gap
+                    let _ = x.run();
+                    let mut out = Vec::new();
+                    for g in [255u64, 256, 257, 1023, 1024, 1025, 4096, 65535, 65536, 65537] {
+                        for _ in 1..g {
+                            let _ = f.run();
+                        }
+                        let mut got = x.run().unwrap_or_default();
+                        let mut want = x.expect();
+                        got.sort_unstable();
+                        want.sort_unstable();
+                        if got != want {
+                            out.push(viol(&class, format!("{:?} differs from the hierarchy after {} identical filler calls", x, g - 1), case2.clone()));
+                            break;
+                        }
+                        if g >= gap {
+                            break;
+                        }
+                    }
+                    out
+                })
+                .join()
+                .unwrap()
+            }))
         }
         "call-pair" => {
             let a = Call::from_json(&case["first"])?;
